@@ -654,6 +654,20 @@ func (cl *Cluster) StopGraceful(m *Machine) bool {
 	return ok
 }
 
+// BackpressureStuck is ground truth for the known finding
+// "backpressure-ignores-commit": the replica's raft storage holds at least
+// (SnapCount+SnapCatchup)*10 entries beyond its first index (node/raft.go
+// serveChannels then treats the node as busy and StepNode drops every MsgApp,
+// including the commit index it carries) while its applied index is behind.
+func (cl *Cluster) BackpressureStuck(m *Machine, p int) bool {
+	if !m.Up || m.Parts[p] == nil {
+		return false
+	}
+	fi, li := m.Parts[p].Node.VerifRaftStorageIndexes()
+	thr := uint64(cl.Opt.SnapCount+cl.Opt.SnapCatchup) * 10
+	return li >= fi && li-fi+1 >= thr && m.Parts[p].Node.GetAppliedIndex() < li
+}
+
 // SelfStopped lists the partitions of a live machine whose node shut itself
 // down (e.g. after a failed snapshot transfer); production's data
 // coordinator restarts such a namespace node later.
